@@ -577,8 +577,11 @@ func (vm *VM) nextCall() bool {
 					break
 				}
 			}
+			// Restore the frame pointer of the returned call: if it is the
+			// first call of the virtual machine, its results are then read
+			// by the caller of the virtual machine.
+			vm.fp = call.fp
 			if regs := call.cl.fn.FinalRegs; regs != nil {
-				vm.fp = call.fp
 				vm.finalize(regs)
 			}
 			continue
